@@ -649,8 +649,13 @@ def add_bulk_array(draw: Any, unit: Unit, signed_nonstd: bool = True) -> bool:
     names = [n for n in ("Brow", "Bbulk") if n not in taken]
     if len(names) < 2:
         return False
-    kind = draw(st.sampled_from(["row", "row", "row", "base"]))
-    if kind == "row":
+    kind = draw(st.sampled_from(["row", "row", "row", "base", "bigrow", "bigrow"]))
+    outer_caps = [30, 31, 32, 33, 40, 64, 65, 70]
+    if kind == "bigrow":
+        # BOTH levels long, the inner one longer than the outer one (an index or a counter used for the wrong level leaves the row)
+        row = Alias(names[0], TArray(TBase(draw(st.sampled_from(["uint", "uint", "int"])), draw(st.sampled_from([8, 16, 8, 32]))), draw(st.sampled_from([17, 20, 24, 33]))))
+        outer_caps = [15, 16, 16, 17]
+    elif kind == "row":
         ew = draw(st.sampled_from([1, 1, 2, 4, 4, 3]))
         total = draw(st.sampled_from([8, 8, 16, 32, 64, 12, 24]))
         ek = draw(st.sampled_from(["uint", "bool", "int"] if signed_nonstd else ["uint", "bool"]))
@@ -663,7 +668,7 @@ def add_bulk_array(draw: Any, unit: Unit, signed_nonstd: bool = True) -> bool:
     bulk = Message(names[1], False)
     bulk.items += [
         Field("lead", TBase("uint", draw(st.sampled_from([8, 8, 16, 3, 5]))), 1),
-        Field("cells", TArray(TRef(row.name, row), draw(st.sampled_from([30, 31, 32, 33, 40, 64, 65, 70]))), 2),
+        Field("cells", TArray(TRef(row.name, row), draw(st.sampled_from(outer_caps))), 2),
         Field("tail", TBase("uint", 5), 3),
     ]
     f.items += [row, bulk]
